@@ -791,7 +791,9 @@ def expr_str(F, v, depth=0):
                 cs = None
                 break
         if cs:
-            return "phi{%s}" % ",".join(str(c) for c in sorted(set(cs)))
+            # by shape, not by value: sibling wrappers return different error codes from the same structure
+            nz = len({c for c in cs if c != 0})
+            return "phi{%s%d nonzero}" % ("0," if 0 in cs else "", nz)
         return "phi#%d" % I.id
     if I.op == "icmp":
         return "icmp_%s(%s,%s)" % (I.pred, expr_str(F, I.ops[0], depth + 1), expr_str(F, I.ops[1], depth + 1))
